@@ -1563,6 +1563,7 @@ func c09Edge(w *World, r *Result, rule string) {
 		}
 		recorded := false
 		keyOK := false
+		keyComputed := ""
 		nameOK := false
 		// record sites: a map store in this function, or a call of a helper that stores (on all
 		// its paths) append(entry, <parameter …>) under a key taken from another parameter
@@ -1684,6 +1685,37 @@ func c09Edge(w *World, r *Result, rule string) {
 			if len(ks.fields) > 0 {
 				keyOK = true
 			}
+			// the key is the stored current-function key itself: a key computed from it where the
+			// edge is recorded (prefix + "_" + key) turns the empty key of top-level code into
+			// something the reachability walk never starts from
+			var viaCall func(v ssa.Value, d int) string
+			viaCall = func(v ssa.Value, d int) string {
+				if d > 4 || v == nil {
+					return ""
+				}
+				switch x := v.(type) {
+				case *ssa.Phi:
+					for _, e := range x.Edges {
+						if c := viaCall(e, d+1); c != "" {
+							return c
+						}
+					}
+				case *ssa.Call:
+					if callee := x.Call.StaticCallee(); callee != nil && w.IsProduct(pkgOf(callee)) && isString(x.Type()) {
+						for _, a := range x.Call.Args {
+							as := newSrcSet()
+							backward(a, as, map[ssa.Value]bool{})
+							if len(as.fields) > 0 {
+								return FuncName(callee)
+							}
+						}
+					}
+				}
+				return ""
+			}
+			if c := viaCall(rc.key, 0); c != "" {
+				keyComputed = c
+			}
 		}
 		pos := w.Pos(fn.Pos())
 		switch {
@@ -1693,6 +1725,8 @@ func c09Edge(w *World, r *Result, rule string) {
 			r.Bad(rule, "edge:record:name", pos, "the recorded callee is not the emitted name of the looked-up definition")
 		case !keyOK:
 			r.Bad(rule, "edge:record:key", pos, "the call edge is not recorded under the current function key")
+		case keyComputed != "":
+			r.Bad(rule, "edge:record:key", pos, "the call edge is recorded under a key computed by "+keyComputed+" from the stored current-function key, not under the stored key itself: for the top-level code of an imported file the stored key is empty and the computed one is not, so functions called only from there are never reached from the root and are removed as unused")
 		default:
 			r.Ok(rule, "edge:record", pos, "callee's emitted name appended under the current-function key before the call node is built")
 		}
